@@ -7,7 +7,7 @@ import subprocess
 from concurrent.futures import ThreadPoolExecutor
 
 from . import dslprint, faults, gen, tools
-from .checks_meta import FLAGS, base_pool, read_tree, tree_diff, probes
+from .checks_meta import FLAGS, POOL_SEED, base_pool, read_tree, tree_diff, probes
 from .spec import features
 
 DIAG_RE = re.compile(r'^Syntax error at line (\d+), column (-?\d+): (.*)$', re.M)
@@ -91,9 +91,9 @@ def c12(ctx):
     seen = set()
     pool = [p for p in pool if not (p.tag in seen or seen.add(p.tag))]
     for i in range(nrand):
-        pool.append(gen.random_proto(random.Random('%s/c12r%d' % (ctx.seed, i)), gen.alpha_tag('Dg', i)))
+        pool.append(gen.random_proto(random.Random('%s/c12r%d' % (POOL_SEED, i)), gen.alpha_tag('Dg', i)))
     for i in range(nrich):
-        pool.append(gen.rich_proto(random.Random('%s/c12h%d' % (ctx.seed, i)), gen.alpha_tag('Dh', i), npk=4))
+        pool.append(gen.rich_proto(random.Random('%s/c12h%d' % (POOL_SEED, i)), gen.alpha_tag('Dh', i), npk=4))
     jobs = []
     per_class = {}
     for base in pool:
